@@ -278,8 +278,7 @@ func blockPastEnd(rec *vr.Rec, reps int) {
 			inject = func(m ref.Msg) { sc.Feed(ref.EncodeTCP(m)) }
 			nsent = func() int { ms, _ := ref.ParseTCPStream(sc.Written()); return len(ms) }
 			closef = func() { _ = cc.Close() }
-			inject(ref.Msg{Code: 7<<5 | 1, Opts: []ref.Opt{{ID: 2, Val: ref.Uint(1152)}, {ID: 4, Val: nil}}})
-			sc.WaitConsumed(2 * time.Second)
+			sim.AnnounceBlockwise(sc, cc, ref.EncodeTCP(ref.Msg{Code: 7<<5 | 1, Opts: []ref.Opt{{ID: 2, Val: ref.Uint(1152)}, {ID: 4, Val: nil}}}))
 		}
 		tok := []byte{0x12, byte(rep), 0xbe}
 		ask := func(mid uint16, num int) {
